@@ -164,8 +164,12 @@ def expected(op, pat, names, quirk=None):
 _FROM = ["d"]
 
 
+_POOL = []
+
+
 def run_query(res, w, home, cond, trace=False):
     q = "name from %s where %s into list" % (_FROM[0], cond)
+    _POOL.append(q)
     r = runner.run([q], cwd=w, home=home, trace=trace)
     res.ev()
     return q, r
@@ -204,6 +208,7 @@ def run_job(job):
         home = runner.make_home(sc)
         d = os.path.join(w, "d")
         os.mkdir(d)
+        del _POOL[:]
         names = gen_names(rng, job["names"])
         # every third job spreads the names over two search roots (one of them searched depth-first): matching is per entry
         two = job.get("two_roots", False)
@@ -358,6 +363,9 @@ def run_job(job):
                 else:
                     res.cover("pair_kinds", "%s+%s" % tuple(sorted((o1, o2))))
                 monitor_rx(res, r, ctx)
+        # history: the same conditions in one interactive session (`fselect -i`), one process, one after the other
+        if len(_POOL) >= 2:
+            runner.session_matches(res, rng.sample(_POOL, min(5, len(_POOL))), w, home, "pattern conditions")
     finally:
         runner.rm_scratch(sc)
     return res
